@@ -11,7 +11,7 @@ from ..render import COMMA, END, EQ, I, K, L, LP, N, RP, T, V, plist, render_scr
 
 KINDS = ["enum", "object", "table", "kv", "domain", "domain_enum", "schema", "database", "tablespace"]
 SCHEMA_FORMS = ["plain", "ine", "auth", "ine_auth", "only_auth", "comment", "comment_eq", "ine_comment", "replace", "project"]
-NAME_STYLES = ("plain", "plain", "dq", "dqsp", "br", "bt")
+NAME_STYLES = ("plain", "plain", "dq", "dqsp", "dqdot", "br", "bt")
 
 
 @st.composite
